@@ -171,10 +171,10 @@ theorem file_reparse_uniform_newlines (bs : Bytes) (f : File) (h : fileFromBytes
     exact this
 
 /-- Print-then-parse with a newline inserted IN THE MIDDLE (round 4), the most common case: the
-text starts with a section header that has something on its own line (`[a] k = v`, `[a][b]`,
-`[a] ; comment`), so `File::write_to` writes a newline right after that header. For every loaded
+FIRST section header of the text (after front matter `fe`: comments, blank lines, whitespace) has
+something on its own line (`[a] k = v`, `[a][b]`, `[a] ; comment`), so `File::write_to` writes a newline right after that header. For every loaded
 file without byte-order mark whose raw events are canonical (as in `events_lossless_partial`), whose
-events are `header :: tl` and for which the writer's output is `header, newline t, tl` (`t` = `\n` or
+events are `fe ++ header :: tl` and for which the writer's output is `fe, header, newline t, tl` (`t` = `\n` or
 `\r\n`; nothing else inserted), where what is written for `tl` does not itself start with a newline:
 the written text parses, and parses back to the same headers and entries.
 Proved from two facts about the parser model: the header parser never looks past its closing
@@ -185,23 +185,31 @@ sections BEFORE them under a change of the following text, which is not proved (
 `file_reparse_full`). -/
 theorem file_reparse_key_on_header_line (bs : Bytes) (f : File) (h : fileFromBytes bs = some f)
     (hb : bomLen bs = 0) (hc : ∀ revs, parseRaw bs = some revs → ∀ e ∈ revs, e.canon = true)
-    (hd : Header) (tl : List Event) (t : Bytes) (ht : t = [10] ∨ t = [13, 10])
-    (hev : f.events = .header hd :: tl) (haug : f.aug = .header hd :: .newline t :: tl)
+    (fe : List Event) (hd : Header) (tl : List Event) (t : Bytes) (ht : t = [10] ∨ t = [13, 10])
+    (hfe : ∀ e ∈ fe, isHeaderEv e = false)
+    (hev : f.events = fe ++ .header hd :: tl) (haug : f.aug = fe ++ .header hd :: .newline t :: tl)
     (hY : takeNewlines1 (render tl) = none) :
     ∃ g, fileFromBytes f.write = some g ∧ g.entries = f.entries ∧ g.headers = f.headers := by
-  rw [File.write_eq, haug, fileFromBytes_ins ht h hb hc hev hY]
+  rw [File.write_eq, haug, fileFromBytes_insF ht h hb hc hfe hev hY]
   refine ⟨_, rfl, ?_⟩
-  have := fileOfEvents_header_nl hd t tl
+  have := fileOfEvents_front_header_nl fe hfe hd t tl
   rw [← hev, fileOfEvents_of_parsed h] at this
   exact this
 
 -- non-vacuity: `[a] k = v\n[b]\nj\n` — the writer moves `k = v` to its own line
 example : ∃ f hd tl, fileFromBytes [91, 97, 93, 32, 107, 32, 61, 32, 118, 10, 91, 98, 93, 10, 106, 10] = some f
     ∧ bomLen [91, 97, 93, 32, 107, 32, 61, 32, 118, 10, 91, 98, 93, 10, 106, 10] = 0
-    ∧ f.events = .header hd :: tl ∧ f.aug = .header hd :: .newline [10] :: tl
+    ∧ f.events = [] ++ .header hd :: tl ∧ f.aug = [] ++ .header hd :: .newline [10] :: tl
     ∧ takeNewlines1 (render tl) = none
     ∧ f.write = [91, 97, 93, 10, 32, 107, 32, 61, 32, 118, 10, 91, 98, 93, 10, 106, 10] := by
   refine ⟨_, _, _, rfl, by decide +kernel, rfl, by decide +kernel, by decide +kernel, by decide +kernel⟩
+
+-- … and with front matter: `# c\n[a] k = v\n`
+example : ∃ f fe hd tl, fileFromBytes [35, 32, 99, 10, 91, 97, 93, 32, 107, 32, 61, 32, 118, 10] = some f
+    ∧ (∀ e ∈ fe, isHeaderEv e = false) ∧ fe.length = 2
+    ∧ f.events = fe ++ .header hd :: tl ∧ f.aug = fe ++ .header hd :: .newline [10] :: tl
+    ∧ takeNewlines1 (render tl) = none := by
+  refine ⟨_, [.comment 35 [32, 99], .newline [10]], _, _, rfl, by decide, rfl, rfl, by decide +kernel, by decide +kernel⟩
 
 /-- … and the same when the final newline is missing as well (`[a] k = v` without a line end): the
 writer inserts `t` after the first header AND appends `t2`; both insertions together are read back
@@ -209,24 +217,26 @@ as the same headers and entries. The end-of-file predicates are those of
 `file_reparse_uniform_newlines`. -/
 theorem file_reparse_key_on_header_line_and_final_newline (bs : Bytes) (f : File) (h : fileFromBytes bs = some f)
     (hb : bomLen bs = 0) (hc : ∀ revs, parseRaw bs = some revs → ∀ e ∈ revs, e.canon = true)
-    (hd : Header) (tl : List Event) (t t2 : Bytes) (ht : t = [10] ∨ t = [13, 10]) (ht2 : t2 = [10] ∨ t2 = [13, 10])
-    (hev : f.events = .header hd :: tl) (haug : f.aug = .header hd :: .newline t :: (tl ++ [.newline t2]))
+    (fe : List Event) (hd : Header) (tl : List Event) (t t2 : Bytes) (ht : t = [10] ∨ t = [13, 10])
+    (ht2 : t2 = [10] ∨ t2 = [13, 10]) (hfe : ∀ e ∈ fe, isHeaderEv e = false)
+    (hev : f.events = fe ++ .header hd :: tl)
+    (haug : f.aug = fe ++ .header hd :: .newline t :: (tl ++ [.newline t2]))
     (hY : takeNewlines1 (render tl) = none) (hne : render tl ≠ []) (h13 : render tl ≠ [13])
     (hlast : ∃ e, f.events.getLast? = some e ∧ (isValueEnd e = true ∨ evIsWs e = true ∨ isHeaderEv e = true ∨
       (isComment e = true ∧ t2 = [10]))) :
     ∃ g, fileFromBytes f.write = some g ∧ g.entries = f.entries ∧ g.headers = f.headers := by
   obtain ⟨e, hle, hv⟩ := hlast
-  have hfile : fileFromBytes (render (.header hd :: .newline t :: (tl ++ [.newline t2]))) =
-      some (fileOfEvents (.header hd :: .newline t :: (tl ++ [.newline t2]))) := by
+  have hfile : fileFromBytes (render (fe ++ .header hd :: .newline t :: (tl ++ [.newline t2]))) =
+      some (fileOfEvents (fe ++ .header hd :: .newline t :: (tl ++ [.newline t2]))) := by
     by_cases hnl : t2 = [10]
     · subst hnl
-      refine fileFromBytes_ins_app ht (Or.inl rfl) eofOk_lf isGoodEndLf_toReal h hb hc hev hY hne h13 ⟨e, hle, ?_⟩
+      refine fileFromBytes_insF_app ht (Or.inl rfl) eofOk_lf isGoodEndLf_toReal h hb hc hfe hev hY hne h13 ⟨e, hle, ?_⟩
       rcases hv with hv | hv | hv | hv
       · exact Or.inl (by simp [isGoodEndLf, isGoodEnd, hv])
       · exact Or.inl (by simp [isGoodEndLf, isGoodEnd, hv])
       · exact Or.inr hv
       · exact Or.inl (by simp [isGoodEndLf, hv.1])
-    · refine fileFromBytes_ins_app ht ht2 (eofOk_goodEnd ht2) isGoodEnd_toReal h hb hc hev hY hne h13 ⟨e, hle, ?_⟩
+    · refine fileFromBytes_insF_app ht ht2 (eofOk_goodEnd ht2) isGoodEnd_toReal h hb hc hfe hev hY hne h13 ⟨e, hle, ?_⟩
       rcases hv with hv | hv | hv | hv
       · exact Or.inl (by simp [isGoodEnd, hv])
       · exact Or.inl (by simp [isGoodEnd, hv])
@@ -234,15 +244,16 @@ theorem file_reparse_key_on_header_line_and_final_newline (bs : Bytes) (f : File
       · exact absurd hv.2 hnl
   rw [File.write_eq, haug, hfile]
   refine ⟨_, rfl, ?_⟩
-  have h1 := fileOfEvents_header_nl hd t (tl ++ [.newline t2])
-  have h2 := fileOfEvents_snoc_nl t2 (.header hd :: tl)
-  have hF : fileOfEvents (.header hd :: tl) = f := by rw [← hev]; exact fileOfEvents_of_parsed h
+  have h1 := fileOfEvents_front_header_nl fe hfe hd t (tl ++ [.newline t2])
+  have h2 := fileOfEvents_snoc_nl t2 (fe ++ .header hd :: tl)
+  have hF : fileOfEvents (fe ++ .header hd :: tl) = f := by rw [← hev]; exact fileOfEvents_of_parsed h
   rw [hF] at h2
+  simp only [List.append_assoc, List.cons_append] at h2
   exact ⟨h1.1.trans h2.1, h1.2.trans h2.2⟩
 
 -- non-vacuity: `[a] k = v` (nothing after the value): both newlines are added
 example : ∃ f hd tl, fileFromBytes [91, 97, 93, 32, 107, 32, 61, 32, 118] = some f
-    ∧ f.events = .header hd :: tl ∧ f.aug = .header hd :: .newline [10] :: (tl ++ [.newline [10]])
+    ∧ f.events = [] ++ .header hd :: tl ∧ f.aug = [] ++ .header hd :: .newline [10] :: (tl ++ [.newline [10]])
     ∧ takeNewlines1 (render tl) = none
     ∧ (∃ e, f.events.getLast? = some e ∧ isValueEnd e = true)
     ∧ f.write = [91, 97, 93, 10, 32, 107, 32, 61, 32, 118, 10] := by
